@@ -1,17 +1,26 @@
 #!/usr/bin/env bash
 # build.sh <variant>: (re)build the harness test binary against $REPO's current working tree.
 # variants: cover (default; plain + coverage counters for x/cctp), race, asan
+# With VERIF_REPO set (scratch copies for self-validation) a separate -modfile and binary name are used.
 set -euo pipefail
 cd "$(dirname "$0")"
 . ./env.sh
-./gen_gomod.sh
 v="${1:-cover}"
-mkdir -p bin
+mkdir -p bin .cache
+tag=""
+modflag=""
+if [ "$REPO" != "/repo" ]; then
+  tag=".$(echo -n "$REPO" | md5sum | cut -c1-8)"
+  mf="$PWD/.cache/gomod$tag/go.mod"
+  ./gen_gomod.sh "$mf"
+  modflag="-modfile=$mf"
+else
+  ./gen_gomod.sh
+fi
 cd harness
 case "$v" in
-  cover) go test -c -tags verif -vet=off -cover -coverpkg=github.com/circlefin/noble-cctp/x/cctp/... -o ../bin/sim.cover.test ./sim ;;
-  plain) go test -c -tags verif -vet=off -o ../bin/sim.plain.test ./sim ;;
-  race)  go test -c -tags verif -vet=off -race -o ../bin/sim.race.test ./sim ;;
-  asan)  CGO_ENABLED=1 go test -c -tags verif -vet=off -asan -o ../bin/sim.asan.test ./sim ;;
+  cover) go test $modflag -c -tags verif -vet=off -cover -coverpkg=github.com/circlefin/noble-cctp/x/cctp/... -o ../bin/sim.cover$tag.test ./sim ;;
+  race)  go test $modflag -c -tags verif -vet=off -race -o ../bin/sim.race$tag.test ./sim ;;
+  asan)  CGO_ENABLED=1 go test $modflag -c -tags verif -vet=off -asan -o ../bin/sim.asan$tag.test ./sim ;;
   *) echo "unknown variant $v" >&2; exit 3 ;;
 esac
